@@ -43,7 +43,9 @@ def monitorTag (prop : String) (script : List Cmd) (obs : List Obs) : Option Str
     | "C08" => MonDuel.monitor script iters
     | "C07" => (MonResponder.monitorProbed script iters 0) <|> (MonResponder.monitorAnnounced script iters 0)
     | "C09" => MonResponder.monitorUnregister script iters 0
-    | "C06" => (MonResponder.monitorAnswers script iters 0) <|> (MonResponder.monitorProbed script iters 0 true)
+    | "C06" => (MonResponder.monitorAnswers script iters 0) <|> (MonResponder.monitorProbed script iters 0 true) <|>
+               (MonResponder.monitorKnownAnswers script iters 0)
+    | "C10" => MonResponder.monitorKnownAnswers script iters 0
     | "C20" => (MonClient.monitorC20 script iters 0) <|> (MonClient.monitorC20Unrequested script iters 0)
     | _ => none
 
@@ -60,7 +62,16 @@ def monitorOp2 (ts : List String) (impl : List String) : Option String :=
     let ob := parseTrace (ib.drop 1)
     match monitorTag prop (parseScript rest) oa with
     | some c => some c
-    | none => if prop == "C12" then Sim.monitorC12 oa (some ob) else none
+    | none =>
+      if prop == "C12" then
+        -- a lost wake-up in a history that registers one name twice (any letter case) on one
+        -- daemon gets its own clause: known finding D32, timer side
+        let regs := (parseScript rest).filterMap fun c => match c with
+          | .register d ty inst .. => some (d, MonResponder.fullOf ty inst)
+          | _ => none
+        let rereg := regs.any fun a => (regs.filter (· == a)).length ≥ 2
+        (Sim.monitorC12 oa (some ob)).map fun m => if rereg && !m.startsWith "spins" then "reregistration-" ++ m else m
+      else none
   | [] => some "bad-op"
 
 end Mdns.Driver.SimAll
